@@ -61,7 +61,7 @@ func (l *limitReadCloser) Read(p []byte) (n int, err error) {
 		if l.N == -1 {
 			n--
 		}
-		if err == nil {
+		if err == nil || errors.Is(err, io.EOF) {
 			err = ErrStreamTooLarge
 		}
 		if !l.closed {
